@@ -542,6 +542,73 @@ def leaf_sweep_case(ctx, idx, res):
     res.sample = {'kind': 'leaf-sweep', 'leaf': leaf[:40], 'context': outer}
 
 
+# every element of the XSLT vocabulary (and one that does not exist), valid in itself, ...
+VOCABULARY = ['<xsl:apply-imports/>', '<xsl:apply-templates/>', '<xsl:attribute name="a">v</xsl:attribute>', '<xsl:attribute-set name="s2"/>', '<xsl:call-template name="r"/>',
+              '<xsl:choose><xsl:when test="1">w</xsl:when></xsl:choose>', '<xsl:comment>c</xsl:comment>', '<xsl:copy/>', '<xsl:copy-of select="."/>', '<xsl:decimal-format name="d2"/>', '<xsl:element name="el2"/>',
+              '<xsl:fallback>f</xsl:fallback>', '<xsl:for-each select="*">e</xsl:for-each>', '<xsl:if test="1">i</xsl:if>', '<xsl:import href="nosuch.xsl"/>', '<xsl:include href="nosuch.xsl"/>',
+              '<xsl:key name="k2" match="a" use="."/>', '<xsl:message>m</xsl:message>', '<xsl:namespace-alias stylesheet-prefix="xsl" result-prefix="#default"/>', '<xsl:number/>', '<xsl:otherwise>o</xsl:otherwise>',
+              '<xsl:output method="xml"/>', '<xsl:param name="pp" select="1"/>', '<xsl:param name="pq">x</xsl:param>', '<xsl:preserve-space elements="a"/>', '<xsl:processing-instruction name="q">d</xsl:processing-instruction>',
+              '<xsl:sort select="."/>', '<xsl:sort/>', '<xsl:strip-space elements="a"/>', '<xsl:stylesheet version="1.0"/>', '<xsl:template match="zz">z</xsl:template>', '<xsl:template name="zn"/>', '<xsl:text>t</xsl:text>',
+              '<xsl:transform version="1.0"/>', '<xsl:value-of select="."/>', '<xsl:variable name="vv" select="1"/>', '<xsl:variable name="vw">x</xsl:variable>', '<xsl:when test="1">w</xsl:when>',
+              '<xsl:with-param name="n" select="1"/>', '<xsl:with-param name="n">x</xsl:with-param>', '<xsl:nosuch/>', '<xsl:nosuch><xsl:fallback>f</xsl:fallback></xsl:nosuch>']
+# ... in every place of a stylesheet: '@' inside the root template, '^' at the top level
+PLACES = ['@', 'x@', '@x', '<e/>@', '^'] + CONTAINERS + [
+    '<xsl:choose>@</xsl:choose>', '<xsl:choose><xsl:when test="1">w</xsl:when>@</xsl:choose>', '<xsl:call-template name="r">@</xsl:call-template>', '<xsl:apply-templates select="*" mode="down">@</xsl:apply-templates>',
+    '<xsl:text>@</xsl:text>', '<xsl:value-of select=".">@</xsl:value-of>', '<xsl:copy-of select=".">@</xsl:copy-of>', '<xsl:number>@</xsl:number>', '<xsl:apply-imports>@</xsl:apply-imports>',
+    '<xsl:for-each select="*"><xsl:sort select=".">@</xsl:sort></xsl:for-each>', '<xsl:call-template name="r"><xsl:with-param name="n" select="1">@</xsl:with-param></xsl:call-template>',
+    '<xsl:nosuch>@<xsl:fallback>f</xsl:fallback></xsl:nosuch>', '^<xsl:attribute-set name="as2">@</xsl:attribute-set>', '^<xsl:key name="k3" match="a" use=".">@</xsl:key>', '^<xsl:output>@</xsl:output>',
+    '^<xsl:param name="tp">@</xsl:param>', '^<xsl:variable name="tv">@</xsl:variable>', '^<xsl:template name="t2"><xsl:param name="a1"/>@</xsl:template>', '^<xsl:template match="b">b@</xsl:template>',
+    '^<xsl:decimal-format name="d3">@</xsl:decimal-format>', '^<xsl:import href="x.xsl">@</xsl:import>', '^<xsl:strip-space elements="b">@</xsl:strip-space>', '^<lre>@</lre>', '^<n:lre xmlns:n="urn:n">@</n:lre>']
+
+
+def misplaced_sweep_case(ctx, idx, res):
+    """every element of the XSLT vocabulary in every place of a stylesheet, allowed or not: compiled and, where it compiles, run; then the follow-up"""
+    d = ctx.drv(FLAVOUR)
+    el, place = VOCABULARY[idx // len(PLACES)], PLACES[idx % len(PLACES)]
+    top = ''
+    if place.startswith('^'):
+        top, body = place[1:].replace('@', el) if '@' in place else el, '<xsl:copy-of select="$tv"/><xsl:apply-templates/>'
+    else:
+        body = place.replace('SEL', '*').replace('#', '0').replace('@', el)
+    xsl = ((HEAD % '') + top + '<xsl:attribute-set name="as"><xsl:attribute name="s">1</xsl:attribute></xsl:attribute-set><xsl:variable name="rtf"><a>1</a>t<!--c--></xsl:variable>'
+           '<xsl:template match="/"><out>%s</out></xsl:template>'
+           '<xsl:template name="r"><xsl:param name="n"/><r><xsl:copy-of select="$n"/></r></xsl:template><xsl:template match="node()|@*" mode="down"><xsl:param name="n"/><d><xsl:copy-of select="$n"/></d></xsl:template></xsl:stylesheet>' % body)
+    if place.startswith('^') and '$tv' in body and 'name="tv"' not in top:
+        xsl = xsl.replace('<xsl:copy-of select="$tv"/>', '')
+    res.sig = 'misplaced-sweep'
+    res.evals = 0
+    t = d.call(cmd='tnew')['t'].decode()
+    try:
+        for src, sty in (('stream', 'stream'), ('parsed', 'compiled')):
+            try:
+                rp = d.call(cmd='transform', t=t, src=src, sty=sty, tgt='stream', xml=NEST_XML, xsl=xsl.encode('utf-8'))
+            except DriverDied as ex:
+                ex.request = dict(ex.request or {}, kind='misplaced-sweep')
+                raise
+            res.evals += 1
+            res.count('misplaced_sweep_transformations')
+            check_reply(res, rp, 'transformation with %s placed in %s' % (el[:40], place[:60]), {'kind': 'misplaced-sweep', 'stylesheet': xsl, 'document': NEST_XML, 'src': src}, 'misplaced-sweep')
+        rp = d.call(cmd='transform', t=t, src='stream', sty='stream', tgt='stream', xml=FOLLOW_XML, xsl=FOLLOW_XSL)
+        res.evals += 1
+        if rp.get('status') != b'0' or rp.get('out') != follow_expected(ctx, d):
+            res.viol('unusable-after|misplaced-sweep', 'after %s placed in %s the same transformer no longer performs a known-good transformation: status %s, %r' % (el[:40], place[:60], rp.get('status'), (rp.get('err') or rp.get('out') or b'')[:200]),
+                     {'kind': 'misplaced-sweep', 'stylesheet': xsl})
+    finally:
+        if d.alive():
+            d.call(cmd='tdel', t=t)
+    res.sample = {'kind': 'misplaced-sweep', 'element': el[:40], 'place': place[:60]}
+
+
+def follow_expected(ctx, d):
+    """the result of the follow-up transformation on a fresh transformer (once per driver process)"""
+    if ctx.cache.get('follow_drv') is not d or 'follow' not in ctx.cache:
+        f = d.call(cmd='tnew')['t'].decode()
+        ctx.cache['follow'] = d.call(cmd='transform', t=f, src='stream', sty='stream', tgt='stream', xml=FOLLOW_XML, xsl=FOLLOW_XSL).get('out')
+        d.call(cmd='tdel', t=f)
+        ctx.cache['follow_drv'] = d
+    return ctx.cache['follow']
+
+
 PATTERN_SLOTS = [('<xsl:template match="%s">m</xsl:template>', '<xsl:apply-templates select="//node()|//@*"/>'),
                  ('<xsl:key name="kk" match="%s" use="name()"/>', '<xsl:value-of select="count(key(\'kk\', \'a\'))"/><xsl:for-each select="//*"><xsl:value-of select="count(key(\'kk\', name()))"/></xsl:for-each>'),
                  ('', '<xsl:for-each select="//node()|//@*"><xsl:number level="any" count="%s"/>,<xsl:number level="multiple" count="%s"/>,<xsl:number count="%s"/></xsl:for-each>'),
@@ -680,11 +747,12 @@ def main():
     chk.run_cases('c03', 'sweep_case', range(len(SWEEP_FRAMES) * len(SWEEP_UNITS)))
     chk.run_cases('c03', 'leaf_sweep_case', range(len(LEAVES) * len(OUTER)))
     chk.run_cases('c03', 'pattern_sweep_case', range(len(V_PATTERN) * len(PATTERN_SLOTS)))
+    chk.run_cases('c03', 'misplaced_sweep_case', range(len(VOCABULARY) * len(PLACES)))
     chk.run_cases('c03', 'dtd_case', range(n // 4))
     if chk.tier == 'thorough' or os.environ.get('VERIF_FUZZ'):
         chk.ensure('fuzz', 'xvfuzz')
         chk.run_cases('c03', 'fuzz_case', range(16))
-    chk.finish(min_nontrivial=8, required_stats=('failures_reported', 'successes', 'still_usable', 'xpath_calls', 'serializer_calls', 'attribute_cases', 'integer_conversions', 'nesting_cases', 'operator_runs', 'leaf_sweep_transformations', 'pattern_sweep_transformations', 'dtd_transformations'))
+    chk.finish(min_nontrivial=8, required_stats=('failures_reported', 'successes', 'still_usable', 'xpath_calls', 'serializer_calls', 'attribute_cases', 'integer_conversions', 'nesting_cases', 'operator_runs', 'leaf_sweep_transformations', 'pattern_sweep_transformations', 'misplaced_sweep_transformations', 'dtd_transformations'))
 
 
 if __name__ == '__main__':
